@@ -316,7 +316,14 @@ impl Property for C08 {
                             c.focus = Some(cell);
                             return Judgement::violation("size-not-honoured", describe("success but produced != size in effect"));
                         }
-                        if r.consumed != hl + consumed {
+                        // a stream carrying both a size and an end marker: the property does not
+                        // say whether the marker that follows the last byte belongs to the payload
+                        let through_marker = if c.marker && s == l && cell.trunc.is_none() {
+                            Some(hl + enc.table.last().map(|t| t.consumed as usize).unwrap_or(5))
+                        } else {
+                            None
+                        };
+                        if r.consumed != hl + consumed && Some(r.consumed) != through_marker {
                             c.focus = Some(cell);
                             return Judgement::violation(
                                 "header-or-payload-consumption",
